@@ -1,7 +1,8 @@
 /-
   C16 — seconds and hertz mean the same at every device sample rate and across changes.
-  Theorems proved so far (the protocol part; the time-scaling closed forms are corollaries of C04/C05/C06
-  and of the effect models and are added as those land):
+  Theorems: the protocol part (below) and, in the second half of the file, the effect part (delay line and
+  reverb line sizes follow the rate in force, the delay forwards the rate to the effects nested in its feedback
+  loop, the filter's corner is recomputed from each call's dt).  The protocol part:
   * a rate change reaches every track the audio thread owns;
   * the full claim "every effect is processed with the rate in force" is FALSE of the current code: a track built
     before a change and picked up after it keeps the old rate (explicit witness schedule), and
@@ -9,6 +10,9 @@
 -/
 import KiraModel.Model.Conc.SampleRateRace
 import KiraModel.Props.C16_time
+import KiraModel.Proofs.EffectsRate
+import KiraModel.Props.C14_a
+import KiraModel.Props.C14_b
 
 namespace K
 open SR
@@ -111,5 +115,180 @@ theorem C16_rate_in_force_partial (r0 : Nat) (ls : List Label) :
 /-- non-vacuity: the restricted system does make progress through adds, pickups and (quiescent) changes. -/
 example : ([Label.gLoadInit, .gEnqueue, .aPickup, .aChange 2, .gLoadInit, .gEnqueue, .aPickup].foldlM stepQuiet (init 1))
     = some ⟨2, [⟨2, true⟩, ⟨2, true⟩], none⟩ := by decide
+
+end K
+
+/-! ## C16, effect level: every effect processes with the sample rate actually in force
+
+The models are the ones the twins of suites `fxa`, `fxb` and `fxrate` run (bit-exact against kira); the
+device rate reaches an effect through `init` / `on_change_sample_rate` (delay and reverb size their lines
+from it) and through the `dt = 1 / rate` of every process call (filter, EQ, compressor, tweens). -/
+
+namespace K
+open LineFx
+
+variable {φ : Type}
+
+/-- **the delay line follows the rate in force, in every history.**  Start from `init sr0` and apply any
+    sequence of rate changes, `on_start_processing` calls and (non-faulting) process calls — with any
+    inputs, any `dt`s, tweening parameters, any feedback effects that keep the slice length.  Whenever the
+    history has arrived at rate `sr`, the line is `max(⌊delay·sr⌋, 1)` frames long (`delay` in seconds =
+    `ns / 10⁹`), and the delay time itself is untouched.  When the delay spans at least one frame this is the
+    requested time in seconds to within one frame of the rate in force:
+    `len / sr ≤ delay < (len + 1) / sr` — an echo comes back after `delay` seconds at every rate.
+    (Follows from `C14_delay_line_length` + the invariance of the length under `process`.) -/
+theorem C16_delay_line_tracks_rate (C : FxChain ℝ φ)
+    (hlen : ∀ dt info s xs, (C.process s xs dt info).2.length = xs.length)
+    (d : Delay ℝ φ) (sr0 ibs : ℕ) (evs : List RateEvent) (d' : Delay ℝ φ) (sr : ℕ)
+    (h : evs.foldlM (Delay.applyEvent C) (d.init C sr0 ibs, sr0) = some (d', sr)) :
+    d'.buffer.length = max ⌊(d.delayNs : ℝ) / 1000000000 * (sr : ℝ)⌋₊ 1
+      ∧ d'.delayNs = d.delayNs
+      ∧ (0 < sr → 1 ≤ (d.delayNs : ℝ) / 1000000000 * (sr : ℝ) →
+          (d'.buffer.length : ℝ) / sr ≤ (d.delayNs : ℝ) / 1000000000
+            ∧ (d.delayNs : ℝ) / 1000000000 < ((d'.buffer.length : ℝ) + 1) / sr) := by
+  have hinv := Delay.history_inv C (fun _ _ => True) (fun _ _ => trivial) (fun _ _ _ => trivial)
+    (fun _ _ _ _ _ _ => trivial) hlen d.delayNs evs (d.init C sr0 ibs, sr0) (d', sr)
+    ⟨by simp [Delay.init], rfl, trivial⟩ h
+  have hL : d'.buffer.length = max ⌊(d.delayNs : ℝ) / 1000000000 * (sr : ℝ)⌋₊ 1 := by
+    rw [hinv.1]; simp [Delay.frames, durToSecs_real]
+  refine ⟨hL, hinv.2.1, ?_⟩
+  intro hsr h1
+  have hfl : 1 ≤ ⌊(d.delayNs : ℝ) / 1000000000 * (sr : ℝ)⌋₊ := Nat.le_floor (by simpa using h1)
+  rw [hL, max_eq_left hfl]
+  exact natFloor_frames_seconds _ (by positivity) sr hsr
+
+/-- **the delay forwards the rate to the effects in its feedback loop.**  `init` and
+    `on_change_sample_rate` apply the chain's `init` / `changeRate` to the nested effects; consequently, if the
+    nested effects remember the rate they are told (`known`, changed by nothing else), then in every history
+    of rate changes, `on_start_processing` and process calls they know the rate in force at every moment. -/
+theorem C16_delay_forwards_rate (C : FxChain ℝ φ) (d : Delay ℝ φ) (sr0 ibs : ℕ) :
+    (d.init C sr0 ibs).fx = C.init d.fx sr0 ibs
+      ∧ (∀ sr, (d.changeRate C sr).fx = C.changeRate d.fx sr)
+      ∧ ∀ (known : φ → ℕ), C.TracksRate known →
+          (∀ dt info s xs, (C.process s xs dt info).2.length = xs.length) →
+          ∀ (evs : List RateEvent) (d' : Delay ℝ φ) (sr : ℕ),
+            evs.foldlM (Delay.applyEvent C) (d.init C sr0 ibs, sr0) = some (d', sr) → known d'.fx = sr := by
+  refine ⟨rfl, fun _ => rfl, ?_⟩
+  intro known hK hlen evs d' sr h
+  have hinv := Delay.history_inv C (fun s r => known s = r) (fun s r => hK.change s r)
+    (fun s r hs => by rw [hK.start]; exact hs) (fun s r xs dt info hs => by rw [hK.proc]; exact hs)
+    hlen d.delayNs evs (d.init C sr0 ibs, sr0) (d', sr)
+    ⟨by simp [Delay.init], rfl, hK.init _ _ _⟩ h
+  exact hinv.2.2
+
+/-- a chain of effects that remember the rate they are told: the hypothesis of `C16_delay_forwards_rate`
+    is satisfiable (this is what the probe effects of suite `fxrate` do) -/
+example : (⟨fun _ sr _ => sr, fun _ sr => sr, fun s => s, fun s xs _ _ => (s, xs)⟩ : FxChain ℝ ℕ).TracksRate id :=
+  ⟨fun _ _ _ => rfl, fun _ _ => rfl, fun _ => rfl, fun _ _ _ _ => rfl⟩
+
+/-- non-vacuity of the histories: init at 48 kHz, change to 96 kHz, start, one process call — a 1 ms
+    delay then has 96 frames. -/
+example (C : FxChain ℝ φ) (hlen : ∀ dt info s xs, (C.process s xs dt info).2.length = xs.length)
+    (d : Delay ℝ φ) (hd : d.delayNs = 1000000) (d' : Delay ℝ φ) (x : Frame ℝ) (info : Info ℝ)
+    (h : [RateEvent.rate 96000, .start, .proc [x] (1 / 96000) info].foldlM (Delay.applyEvent C)
+        (d.init C 48000 64, 48000) = some (d', 96000)) : d'.buffer.length = 96 := by
+  have := (C16_delay_line_tracks_rate C hlen d 48000 64 _ d' 96000 h).1
+  rw [this, hd]
+  norm_num
+
+/-- **the reverb's line sizes follow the rate in force.**  `init` and `on_change_sample_rate` both rebuild
+    the network for the rate they are given, whatever state (and whatever earlier rate) the reverb was in:
+    comb / all-pass line `c` of the Freeverb table gets `⌊c·sr/44100⌋` (left) and `⌊(c+23)·sr/44100⌋` (right)
+    slots — `c / 44100` seconds to within one frame at every rate `sr > 0`.
+    (From `C14_freeverb_topology`; the constants are re-extracted from the Rust source on every run.) -/
+theorem C16_reverb_sizes_track_rate (r : Reverb ℝ) (sr0 sr : ℕ) :
+    ((r.init sr0).init sr).state = some (ReverbLines.init sr)
+      ∧ (ReverbLines.init sr : ReverbLines ℝ).combs
+          = freeverbCombTuning.map (fun c => (Comb.new ⌊(c : ℝ) * ((sr : ℝ) / 44100)⌋₊,
+                                               Comb.new ⌊(↑(c + 23) : ℝ) * ((sr : ℝ) / 44100)⌋₊))
+      ∧ (ReverbLines.init sr : ReverbLines ℝ).allPasses
+          = freeverbAllPassTuning.map (fun c => (AllPass.new ⌊(c : ℝ) * ((sr : ℝ) / 44100)⌋₊,
+                                                  AllPass.new ⌊(↑(c + 23) : ℝ) * ((sr : ℝ) / 44100)⌋₊))
+      ∧ (0 < sr → ∀ c : ℕ,
+          (⌊(c : ℝ) * ((sr : ℝ) / 44100)⌋₊ : ℝ) / sr ≤ (c : ℝ) / 44100
+            ∧ (c : ℝ) / 44100 < ((⌊(c : ℝ) * ((sr : ℝ) / 44100)⌋₊ : ℝ) + 1) / sr) := by
+  obtain ⟨hc, ha, _⟩ := C14_freeverb_topology sr
+  refine ⟨rfl, hc, ha, ?_⟩
+  intro hsr c
+  have e : (c : ℝ) * ((sr : ℝ) / 44100) = (c : ℝ) / 44100 * (sr : ℝ) := by ring
+  rw [e]
+  exact natFloor_frames_seconds _ (by positivity) sr hsr
+
+/-- **the filter's corner follows the rate in force: nothing is carried over from an earlier rate.**
+    A filter at rest (no tween, no modulator) processes `xs` with `dt`, the device rate changes
+    (`on_change_sample_rate` — which the filter does not even need), then it processes `ys` with `dt'`.
+    The second call is the fold of the per-frame transition `tickV s dt'` — built from
+    `Filter.coefs cutoff resonance dt'`, i.e. `g = tan(π · clamp(cutoff · dt', 0.0001, 0.5))` for THAT call's
+    `dt'` — over `ys`, started from the integrator pair the first call left; the only things the first call
+    changed are the two integrators.  Hence `C14_svf_corner` applies verbatim to the second call: the corner
+    angle is `2π · cutoff · dt'` (the requested frequency in hertz at the new rate) as soon as
+    `0.0001 ≤ cutoff · dt' < 0.5`. -/
+theorem C16_filter_corner_tracks_rate (s : Filter ℝ) (h : s.Stagnant) (xs ys : List (Frame ℝ)) (dt dt' : ℝ)
+    (info info' : Info ℝ) (sr' : ℕ) :
+    let s1 := ((s.process xs dt info).1).onChangeSampleRate sr'
+    s1 = (Filter.settle s).withState (s1.ic1eq, s1.ic2eq)
+      ∧ s1.Stagnant
+      ∧ s1.process ys dt' info'
+          = ((Filter.settle s).withState (runTick (Filter.tickV s dt') (s1.ic1eq, s1.ic2eq) ys).1,
+             (runTick (Filter.tickV s dt') (s1.ic1eq, s1.ic2eq) ys).2)
+      ∧ (Filter.coefs s.cutoff.raw (clamp s.resonance.raw (0.0 : ℝ) (1.0 : ℝ)) dt').a1
+          = 1 / (1 + Filter.g s.cutoff.raw dt' * (Filter.g s.cutoff.raw dt'
+              + (2 - 19 / 10 * clamp s.resonance.raw (0.0 : ℝ) (1.0 : ℝ))))
+      ∧ Filter.g s.cutoff.raw dt' = Real.tan (Real.pi * clamp (s.cutoff.raw / (1 / dt')) (1 / 10000) (1 / 2))
+      ∧ (0 < dt' → 1 / 10000 ≤ s.cutoff.raw * dt' → s.cutoff.raw * dt' < 1 / 2 →
+          2 * Filter.phi s1.cutoff.raw dt' = 2 * Real.pi * s.cutoff.raw * dt') := by
+  intro s1
+  have hs1 : s1 = (Filter.settle s).withState (s1.ic1eq, s1.ic2eq) := by
+    simp only [s1, Filter.onChangeSampleRate, Filter.process_stagnant s h xs dt info]
+    rfl
+  have hst : s1.Stagnant := by
+    rw [hs1]; exact Filter.withState_stagnant _ _ (Filter.settle_stagnant s h)
+  refine ⟨hs1, hst, ?_, ?_, rfl, ?_⟩
+  · rw [Filter.process_stagnant s1 hst ys dt' info']
+    have ht : Filter.tickV s1 dt' = Filter.tickV s dt' := by
+      rw [hs1, Filter.tickV_withState, Filter.tickV_settle]
+    have hse : ∀ v, (Filter.settle s1).withState v = (Filter.settle s).withState v := by
+      intro v
+      rw [hs1, Filter.settle_withState, Filter.settle_idem]
+      rfl
+    rw [ht, hse]
+  · simp only [Filter.coefs_real]
+  · intro hdt hlo hny
+    have hc : s1.cutoff.raw = s.cutoff.raw := by rw [hs1]; rfl
+    rw [hc, (Filter.phi_range s.cutoff.raw dt' hdt hny).2.2 hlo]
+    ring
+
+/-- **the EQ's centre / corner follows the rate in force** in the same way: after any earlier call at another
+    `dt` and a rate change, a call with `dt'` is the fold of the transition built from
+    `EqCoefs.calculate kind frequency q gain dt'` (relative frequency `clamp(frequency · dt', 0.0001, 0.5)` of
+    THAT call) over its input, from the integrator pair left behind; so `C14_eq_bell_centre`, `C14_eq_dc`,
+    `C14_eq_nyquist` apply verbatim at the new rate. -/
+theorem C16_eq_centre_tracks_rate (s : EqFilter ℝ) (h : s.Stagnant) (xs ys : List (Frame ℝ)) (dt dt' : ℝ)
+    (info info' : Info ℝ) (sr' : ℕ) :
+    let s1 := ((s.process xs dt info).1).onChangeSampleRate sr'
+    s1 = (EqFilter.settle s).withState (s1.ic1eq, s1.ic2eq)
+      ∧ s1.Stagnant
+      ∧ s1.process ys dt' info'
+          = ((EqFilter.settle s).withState (runTick (EqFilter.tickV s dt') (s1.ic1eq, s1.ic2eq) ys).1,
+             (runTick (EqFilter.tickV s dt') (s1.ic1eq, s1.ic2eq) ys).2)
+      ∧ ∀ v f, EqFilter.tickV s dt' v f
+          = (((EqFilter.tick s.kind s.frequency.raw s.q.raw s.gain.raw dt' v.1 v.2 f).1,
+              (EqFilter.tick s.kind s.frequency.raw s.q.raw s.gain.raw dt' v.1 v.2 f).2.1),
+             (EqFilter.tick s.kind s.frequency.raw s.q.raw s.gain.raw dt' v.1 v.2 f).2.2) := by
+  intro s1
+  have hs1 : s1 = (EqFilter.settle s).withState (s1.ic1eq, s1.ic2eq) := by
+    simp only [s1, EqFilter.onChangeSampleRate, EqFilter.process_stagnant s h xs dt info]
+    rfl
+  have hst : s1.Stagnant := by
+    rw [hs1]; exact EqFilter.withState_stagnant _ _ (EqFilter.settle_stagnant s h)
+  refine ⟨hs1, hst, ?_, fun _ _ => rfl⟩
+  rw [EqFilter.process_stagnant s1 hst ys dt' info']
+  have ht : EqFilter.tickV s1 dt' = EqFilter.tickV s dt' := by
+    rw [hs1, EqFilter.tickV_withState, EqFilter.tickV_settle]
+  have hse : ∀ v, (EqFilter.settle s1).withState v = (EqFilter.settle s).withState v := by
+    intro v
+    rw [hs1, EqFilter.settle_withState, EqFilter.settle_idem]
+    rfl
+  rw [ht, hse]
 
 end K
